@@ -111,7 +111,8 @@ class AbstractItemEncoder(object):
                 if LOG:
                     LOG('encoded %svalue %s into %s' % (
                         isConstructed and 'constructed ' or '',
-                        asn1Spec is None and not value.isValue and repr(value) or value,
+                        debug.show(value) if asn1Spec is not None else
+                        value if value.isValue else repr(value),
                         substrate
                     ))
 
@@ -431,7 +432,7 @@ class RealEncoder(AbstractItemEncoder):
 
         if LOG:
             LOG('automatically chosen REAL encoding base %s, sign %s, mantissa %s, '
-                'exponent %s' % (encbase, sign, m, e))
+                'exponent %s' % (encbase, sign, debug.show(m), e))
 
         return sign, m, encbase, e
 
@@ -872,7 +873,8 @@ class SingleItemEncoder(object):
                                 options.get('maxChunkSize', 0),
                                 asn1Spec is None and value.prettyPrintType() or
                                 asn1Spec.prettyPrintType(),
-                                asn1Spec is None and not value.isValue and repr(value) or value))
+                                debug.show(value) if asn1Spec is not None else
+                                value if value.isValue else repr(value)))
 
         if self.fixedDefLengthMode is not None:
             options.update(defMode=self.fixedDefLengthMode)
